@@ -8,8 +8,9 @@ TEXT, ELEMENT, DOCUMENT, FRAGMENT = 3, 1, 9, 11
 
 
 class Walk(object):
-    def __init__(self, doc):
+    def __init__(self, doc, all_chains=False):
         self.doc = doc
+        self.all_chains = all_chains      # also check the parent chain of a text node without marker that is the single value of an argument
         self.markers = []          # (marker, path tuple of nodeNames, container node, text node)
         self.problems = []         # (kind, message)
         self.seen = set()
@@ -25,7 +26,7 @@ class Walk(object):
         self.visit(self.doc, [])
         return self
 
-    def visit(self, node, path):
+    def visit(self, node, path, direct_attr=False):
         nid = id(node)
         if nid in self.seen:
             self.problem('reachable-twice', 'node %r reached a second time via %s' % (_nm(node), '/'.join(_nm(p) for p in path)))
@@ -37,7 +38,7 @@ class Walk(object):
             ms = MARK_RE.findall(str(node))
             if 'Zt' in node or 'Zm' in node:
                 self.twins.append((str(node), tuple(_nm(p) for p in path)))
-            if ms:
+            if ms or (self.all_chains and direct_attr):
                 self.check_chain(node, path)
             for m in ms:
                 self.markers.append((m, tuple(_nm(p) for p in path), path[-1] if path else None, node))
@@ -54,16 +55,18 @@ class Walk(object):
             self.adj.add((_kind(node), _kind(child)))
             self.visit(child, newpath)
 
-    def visit_value(self, value, path):
+    def visit_value(self, value, path, direct=True):
         nt = getattr(value, 'nodeType', None)
         if nt is not None and not isinstance(value, str) or nt == TEXT:
-            self.visit(value, path)
+            # (an argument whose value is one node -- the * of a starred form, a single token -- is placed in the tree like
+            # any other node; lists of raw tokens, such as a column specification, are data and are not)
+            self.visit(value, path, direct_attr=direct)
         elif isinstance(value, (list, tuple)):
             for v in value:
-                self.visit_value(v, path)
+                self.visit_value(v, path, False)
         elif isinstance(value, dict):
             for v in value.values():
-                self.visit_value(v, path)
+                self.visit_value(v, path, False)
 
     def check_chain(self, leaf, path):
         """the parent chain of a text leaf must lead through its actual containers back to the document"""
